@@ -343,10 +343,26 @@ impl Plan {
         let npeers = rng.range(2, 6) as usize;
         let mut peers = Vec::new();
         for _ in 0..npeers {
+            // mostly ordinary unicast sources; some special-purpose ones (IPv4-mapped, link-local,
+            // 6to4, loopback-ish, link-local IPv4, limited broadcast as a spoofed source)
+            let ip6 = match rng.below(10) {
+                0 | 1 => {
+                    let b = rng.bytes(4);
+                    Ipv6Addr::new(0, 0, 0, 0, 0, 0xffff, ((b[0] as u16) << 8) | b[1] as u16, ((b[2] as u16) << 8) | b[3] as u16)
+                }
+                2 => Ipv6Addr::new(0xfe80, 0, 0, 0, rng.u16(), rng.u16(), rng.u16(), rng.u16()),
+                3 => Ipv6Addr::new(0x2002, rng.u16(), rng.u16(), 0, 0, 0, 0, rng.u16()),
+                _ => rand_ip6(rng, 0xfd00),
+            };
+            let ip4 = match rng.below(12) {
+                0 => Ipv4Addr::new(169, 254, rng.u8(), rng.u8().max(1)),
+                1 => Ipv4Addr::new(*rng.pick(&[0u8, 127, 224, 240, 255]), rng.u8(), rng.u8(), rng.u8().max(1)),
+                _ => rand_ip4(rng, 192),
+            };
             peers.push(Peer {
                 mac: rand_mac(rng),
-                ip4: rand_ip4(rng, 192),
-                ip6: rand_ip6(rng, 0xfd00),
+                ip4,
+                ip6,
                 denied: false,
             });
         }
